@@ -9,7 +9,7 @@
    Models: Model/H1Resp.v (C04), Model/H1Limits.v, Model/BodyStages.v, Model/Decode.v (C14). *)
 From ReqV Require Import Lib.Bytes Model.Decode Model.BodyStages Model.H1Resp Model.H1Limits
   Model.AltSvc Model.H2Frame Proofs.BodyStagesProofs Proofs.H1LimitsProofs Proofs.AltSvcProofs Proofs.C07Misc.
-From ReqV Require Model.Digest Gen.C07Consts.
+From ReqV Require Model.Digest Gen.C07Consts Model.H3Frame Model.H3Limits Proofs.H3FrameProofs Proofs.H3LimitsProofs.
 From Coq Require Import Lia.
 Local Open Scope nat_scope.
 
@@ -155,6 +155,73 @@ Theorem C07_h2_frame_within_limit : forall st input f rest st',
   (N.of_nat (length input - length rest) <= 9 + rs_max st)%N.
 Proof. exact h2_frame_within_limit. Qed.
 Print Assumptions C07_h2_frame_within_limit.
+
+(* ---------- HTTP/3 frame parser and response head (Model/H3Frame.v of C05, Model/H3Limits.v) ---------- *)
+
+(* no fuel artefact: with any fuel above the input length the parser gives the same result *)
+Theorem C07_h3_frame_parse_total : forall f input,
+  length input < f -> H3Frame.h3_parse_next_fuel f input = H3Frame.h3_parse_next input.
+Proof. exact H3LimitsProofs.h3_frame_parse_total. Qed.
+Print Assumptions C07_h3_frame_parse_total.
+
+Theorem C07_h3_parse_only_consumes : forall input,
+  length (snd (H3Frame.h3_parse_next input)) <= length input.
+Proof. exact H3LimitsProofs.h3_parse_only_consumes. Qed.
+Print Assumptions C07_h3_parse_only_consumes.
+
+(* SETTINGS cap (8 KiB, regenerated from the source): refused with the reader untouched *)
+Theorem C07_h3_settings_over_cap : forall input l,
+  (H3Consts.h3SettingsMaxLen < l)%N ->
+  H3Frame.h3_parse_settings_frame input l = (H3Frame.H3Err (H3Frame.H3SettingsTooLarge l), input).
+Proof. exact H3LimitsProofs.h3_settings_over_cap. Qed.
+Print Assumptions C07_h3_settings_over_cap.
+
+Theorem C07_h3_settings_cap : forall input s rest,
+  H3Frame.h3_parse_next input = (H3Frame.H3Ok (H3Frame.H3Settings s), rest) ->
+  exists payload, (BigEndian.lenN payload <= H3Consts.h3SettingsMaxLen)%N /\
+                  H3Frame.h3_parse_settings_payload payload = H3Frame.H3Ok s.
+Proof. exact H3LimitsProofs.h3_settings_cap. Qed.
+Print Assumptions C07_h3_settings_cap.
+
+(* header size limit: refused on the announced length alone; an accepted field section is within it *)
+Theorem C07_h3_header_over_limit : forall max input l rest,
+  H3Frame.h3_parse_next input = (H3Frame.H3Ok (H3Frame.H3Headers l), rest) -> (max < l)%N ->
+  H3Limits.h3_read_head max input = H3Limits.HdTooLarge l.
+Proof. exact H3LimitsProofs.h3_header_over_limit. Qed.
+Print Assumptions C07_h3_header_over_limit.
+
+Theorem C07_h3_header_within_limit : forall max input block rest,
+  H3Limits.h3_read_head max input = H3Limits.HdOk block rest ->
+  (BigEndian.lenN block <= max)%N /\ length block + length rest <= length input.
+Proof. exact H3LimitsProofs.h3_header_within_limit. Qed.
+Print Assumptions C07_h3_header_within_limit.
+
+(* an unknown (non-reserved) frame is skipped: the parser continues behind its payload, whatever
+   its type and however it is encoded; a payload that is not all there is io.EOF *)
+Theorem C07_h3_unknown_frame_skipped : forall et el t p rest,
+  H3FrameProofs.is_enc et t -> H3FrameProofs.is_enc el (BigEndian.lenN p) ->
+  t <> H3Consts.h3FrameData -> t <> H3Consts.h3FrameHeaders -> t <> H3Consts.h3FrameSettings ->
+  ~ In t H3Consts.h3ReservedTypes ->
+  H3Frame.h3_parse_next (et ++ el ++ p ++ rest) = H3Frame.h3_parse_next rest.
+Proof. exact H3FrameProofs.h3_unknown_frame_skipped. Qed.
+Print Assumptions C07_h3_unknown_frame_skipped.
+
+Theorem C07_h3_unknown_frame_truncated : forall et el t l rest,
+  H3FrameProofs.is_enc et t -> H3FrameProofs.is_enc el l ->
+  t <> H3Consts.h3FrameData -> t <> H3Consts.h3FrameHeaders -> t <> H3Consts.h3FrameSettings ->
+  ~ In t H3Consts.h3ReservedTypes -> (BigEndian.lenN rest < l)%N ->
+  H3Frame.h3_parse_next (et ++ el ++ rest) = (H3Frame.H3Err H3Frame.H3EOF, []).
+Proof. exact H3FrameProofs.h3_unknown_frame_truncated. Qed.
+Print Assumptions C07_h3_unknown_frame_truncated.
+
+Theorem C07_h3_at_most_5_informational : forall max q input,
+  match H3Limits.h3_read_call max q input with
+  | H3Limits.H3CallErr k => k <= 5
+  | H3Limits.H3Resp k _ _ => k <= 5
+  | _ => True
+  end.
+Proof. exact H3LimitsProofs.h3_at_most_5_informational. Qed.
+Print Assumptions C07_h3_at_most_5_informational.
 
 (* ---------- translator tie: limits and tables regenerated from the source ---------- *)
 
